@@ -80,6 +80,8 @@ SHAPES = {
     "enum_disc64": "#[repr(u64)] enum S {{ {V}A = 18446744073709551615, B = 0xFFFF_FFFF_FFFF_FFFE, C = 9223372036854775808, D = 0o7, E = 0b1010_1010, F = 9223372036854775807u64 }}",
     "enum_disc128": "#[repr(i128)] enum S {{ {V}A = -170141183460469231731687303715884105728, B = 170141183460469231731687303715884105727, C = 0, D = 340282366920938463463374607431768211455 }}",
     "enum_disc_exprs": "#[repr(u8)] enum S {{ {V}A = b'a', B = 1 << 7, C = {{ 1 + 2 }}, D = !0 as u8 >> 1, E = u8::MAX - 1, F = (7), G = -1i8 as u8, H = LEN as u8, I = if true {{ 5 }} else {{ 6 }} }}",
+    "enum_odd_names": "enum S {{ {V}\u03a9mega, \u00dcberBreit, __, _x, X, r#fn, a1B2, \U00010400x }}",
+    "struct_odd_name": "struct \u03a9;", "struct_underscores": "struct __;",
     "array_const": "struct S<T>({F}[T; LEN], {G}[u8; core::mem::size_of::<u64>()], Wrap<{{ LEN + 1 }}>);",
 }
 
@@ -103,6 +105,10 @@ def body_text(body, attr):
         "types_nocomma": f"#[{a}(i32 u8)]", "forms_nocomma": f"#[{a}(owned(i32) ref_mut u8)]",
         "path_global": f"#[{a}(::owned)]", "path_call": f"#[{a}(forward::all(x), ignore::y)]", "path_generic": f"#[{a}(ignore<T>, forward::<u8>)]",
         "legacy_in_owned": f"#[{a}(owned(types(i64)))]", "legacy_in_ref": f"#[{a}(ref(types(i64)))]", "legacy_in_ref_mut": f"#[{a}(ref_mut(types(i64)))]",
+        "rename_lower": f'#[{a}(rename_all = "lowercase")]', "rename_upper": f'#[{a}(rename_all = "UPPERCASE")]',
+        "rename_pascal": f'#[{a}(rename_all = "PascalCase")]', "rename_camel": f'#[{a}(rename_all = "camelCase")]',
+        "rename_snake": f'#[{a}(rename_all = "snake_case")]', "rename_scream": f'#[{a}(rename_all = "SCREAMING_SNAKE_CASE")]',
+        "rename_kebab": f'#[{a}(rename_all = "kebab-case")]', "rename_screamkebab": f'#[{a}(rename_all = "SCREAMING-KEBAB-CASE")]',
         "word_repr": f"#[{a}(repr)]", "word_forward": f"#[{a}(forward)]", "word_skip": f"#[{a}(skip)]",
     }[body]
 
